@@ -22,13 +22,10 @@ for name,(prop,summary,needs) in info.items():
     d='/verif/seeded/'+name
     if not os.path.isdir(d): continue
     caught=[]
-    f=None
-    for rd in resdirs:
-        c=os.path.join(rd,name+'.txt')
-        if os.path.exists(c) and os.path.getsize(c)>0: f=c
-    if f:
+    fs=[os.path.join(rd,name+'.txt') for rd in resdirs if os.path.exists(os.path.join(rd,name+'.txt')) and os.path.getsize(os.path.join(rd,name+'.txt'))>0]
+    if fs:
         cur=None; kinds={}
-        for l in open(f):
+        for l in [l for f in fs for l in open(f)]:
             m=re.match(r'== seed=\S+ check=(\S+) exit=(\d+)',l)
             if m: cur=m.group(1); kinds.setdefault(cur,[]); ex=m.group(2); kinds[cur+':exit']=ex
             m=re.match(r'\s+kind=(\S+) site=(.*?) pre=',l)
@@ -72,13 +69,10 @@ for name,(prop,summary,needs) in info3.items():
     d='/verif/seeded/'+name
     if not os.path.isdir(d): continue
     caught=[]
-    f=None
-    for rd in resdirs:
-        c=os.path.join(rd,name+'.txt')
-        if os.path.exists(c) and os.path.getsize(c)>0: f=c
-    if f:
+    fs=[os.path.join(rd,name+'.txt') for rd in resdirs if os.path.exists(os.path.join(rd,name+'.txt')) and os.path.getsize(os.path.join(rd,name+'.txt'))>0]
+    if fs:
         cur=None; kinds={}
-        for l in open(f):
+        for l in [l for f in fs for l in open(f)]:
             m=re.match(r'== seed=\S+ check=(\S+) exit=(\d+)',l)
             if m: cur=m.group(1); kinds.setdefault(cur,[]); kinds[cur+':exit']=m.group(2)
             m=re.match(r'\s+kind=(\S+) site=(.*?) pre=',l)
@@ -113,13 +107,10 @@ for name,(prop,summary,needs) in info4.items():
     d='/verif/seeded/'+name
     if not os.path.isdir(d): continue
     caught=[]
-    f=None
-    for rd in resdirs:
-        c=os.path.join(rd,name+'.txt')
-        if os.path.exists(c) and os.path.getsize(c)>0: f=c
-    if f:
+    fs=[os.path.join(rd,name+'.txt') for rd in resdirs if os.path.exists(os.path.join(rd,name+'.txt')) and os.path.getsize(os.path.join(rd,name+'.txt'))>0]
+    if fs:
         cur=None; kinds={}
-        for l in open(f):
+        for l in [l for f in fs for l in open(f)]:
             m=re.match(r'== seed=\S+ check=(\S+) exit=(\d+)',l)
             if m: cur=m.group(1); kinds.setdefault(cur,[]); kinds[cur+':exit']=m.group(2)
             m=re.match(r'\s+kind=(\S+) site=(.*?) pre=',l)
